@@ -28,8 +28,13 @@ class Ctx:
 
   @property
   def fm(self):
+    # the float model is the same for every sub-case of a graph: parse once
     if self._fm is None:
-      self._fm = fbparse.parse(self.built.model)
+      fm = getattr(self.built, '_parsed_float', None)
+      if fm is None:
+        fm = fbparse.parse(self.built.model)
+        self.built._parsed_float = fm
+      self._fm = fm
     return self._fm
 
   @property
@@ -136,7 +141,17 @@ def run_graph_case(prop, case, note, skip, recipe_plan, oracle,
         fails = [ctx.fail('oracle_exception',
                           'the oracle could not examine the returned model: '
                           + tb[-800:])]
-      res['fails'].extend(fails)
+      # known-finding hits are only counted (with one example per finding):
+      # there can be hundreds of thousands of them
+      for f_ in fails:
+        fid = f_.get('finding')
+        if fid:
+          kf = res.setdefault('kf', {})
+          if fid not in kf:
+            kf[fid] = [0, {'sub': f_.get('sub'), 'detail': f_.get('detail')}]
+          kf[fid][0] += 1
+        else:
+          res['fails'].append(f_)
       if hasattr(ctx, 'margin') and not fails:
         # how much of the fixed-fraction allowance was used (tenths)
         res['counts']['allowance_used<=%.1f' % (
